@@ -25,8 +25,8 @@ var (
 	c18DescRole  = []string{"", "row", "gridcell", "navigation"}
 	c18Datatable = []string{"", "0", "1"}
 	c18Nested    = []string{"no", "yes", "empty"}
-	c18Shapes    = [][]int{{3}, {1, 1, 1}, {2, 2}, {4, 4}, {5, 5}, {2, 2, 2, 2, 2}, {4, 4, 3}, {4, 4, 4}, rowsOf(19, 2), rowsOf(20, 2)}
-	c18ShapeName = []string{"1x3", "3x1", "2x2", "2x4", "2x5", "5x2(10 cells)", "ragged 4+4+3(11 cells)", "3x4", "19x2", "20x2"}
+	c18Shapes    = [][]int{{3}, {1, 1, 1}, {2, 2}, {4, 4}, {5, 5}, {2, 2, 2, 2, 2}, {4, 4, 3}, {4, 4, 4}, rowsOf(19, 2), rowsOf(20, 2), append(rowsOf(20, 1), 2, 2)}
+	c18ShapeName = []string{"1x3", "3x1", "2x2", "2x4", "2x5", "5x2(10 cells)", "ragged 4+4+3(11 cells)", "3x4", "19x2", "20x2", "ragged 20x1 then 2x2"}
 	c18Header    = []string{"none", "caption", "thead", "tfoot", "colgroup", "col", "th", "th-column", "th-row-empty-corner"}
 	c18Cell      = []string{"none", "abbr-attr", "headers-attr", "scope-attr", "lone-abbr-child"}
 	c18Summary   = []string{"no", "yes"}
@@ -479,7 +479,14 @@ func checkC18(c *Case) (*Violation, caseInfo) {
 				}
 			}
 		}
-		_, out := applyHTML(v.page(2), OptSpec{})
+		// an editable element that is no ancestor of the table (it is empty, and closed long before
+		// the table starts) says nothing about the table
+		apiPage := v.page(2)
+		if ex.Index%2 == 0 {
+			apiPage = strings.Replace(apiPage, "<body>", `<body><div contenteditable="true"></div><p contenteditable="true"></p>`, 1)
+			info.Classes = append(info.Classes, "api-level-after-empty-editable")
+		}
+		_, out := applyHTML(apiPage, OptSpec{})
 		if !out.Panicked && out.Err == nil && out.Res != nil {
 			hasTable := countElems(out.Res.Node, "table") > 0
 			info.Classes = append(info.Classes, "api-level")
